@@ -341,6 +341,9 @@ def worldLine (st : WState) (line : String) : WState × List String :=
                 (if tag == "C04" && st.afterDeadOp && !mutatingThroughDead && (match op with | .mask _ | .get .. | .has .. | .count _ | .isEmpty _ | .slice _ => true | _ => false) then
                   [s!"MON C03 case={st.caseId} line={st.lineNo} C03 an operation through a dead handle, although answered as absent, changed the storage ({why}) op=[{shown}] impl=[{r}]"]
                 else []) ++
+                (if tag == "C03" && (match op with | .rjoin .. => true | _ => false) then
+                  [s!"MON C13 case={st.caseId} line={st.lineNo} C13 a lookup of another entity through a restricted storage does not follow the storage rule (alive and member) ({why}) op=[{shown}] impl=[{r}]"]
+                else []) ++
                 (if tag == "C03" && mutatingThroughDead then
                   [s!"MON C04 case={st.caseId} line={st.lineNo} C04 an operation through a dead handle was not refused: the map from live entity to component changed without an operation on a live entity ({why}) op=[{shown}] impl=[{r}]"]
                 else [])
